@@ -125,6 +125,12 @@ func (db *DB) Merge() error {
 	if err := hintFile.Close(); err != nil {
 		return err
 	}
+	// 重写过程中发生过文件切换时, 先前的重写文件同样需要持久化并关闭
+	for _, file := range mergeDB.olderFiles {
+		if err := file.Close(); err != nil {
+			return err
+		}
+	}
 	if mergeDB.activeFile != nil {
 		if err := mergeDB.activeFile.Close(); err != nil {
 			return err
